@@ -27,59 +27,73 @@ def _u(name, kinds, inits, parents, depth, ops=None, slack=2, pairs=1):
 
 
 def universes(tier):
-    '''Deterministic list of universes of a tier.'''
+    '''Deterministic list of universes of a tier.  History bounds are chosen by
+    measured size (labelled transitions, all 17 operations): the 6-node
+    universes loop / ifblock / omp / leaves are explored completely at bound 4
+    (72 / 73 / 13 / 20 states), call is near its fixpoint at bound 3 (615 of
+    620 states, ~340 k transitions), nest and array at bound 3 (145 of 153,
+    240 of 254 states); expr grows to 1 468 states / ~720 k transitions at
+    bound 3 and stays at bound 2; the 7- and 8-node universes stay at bound 2.
+    Thorough total: ~0.95 M transitions.'''
     quick = tier == "quick"
-    d = 3 if quick else 4
     ops = QUICK_OPS if quick else ALL_OPS
+    # (quick bound, thorough bound)
+
+    def b(q, t):
+        return q if quick else t
     res = [
         # Loop bound slots; twins: Literal 3/4, Schedule 2/6
         _u("loop", ["Loop", "Schedule", "Literal", "Literal", "Reference", "Schedule"],
-           [{1: [3, 4, 5, 2]}, {1: [3, 4, 5, 2], 6: [1]}], [1, 2, 6], d, ops),
+           [{1: [3, 4, 5, 2]}, {1: [3, 4, 5, 2], 6: [1]}], [1, 2, 6], b(3, 4), ops),
         # IfBlock: condition + two Schedules (twins 2/3)
         _u("ifblock", ["IfBlock", "Schedule", "Schedule", "Literal", "Return", "Reference"],
-           [{1: [4, 2, 3], 2: [5]}], [1, 2, 3], d, ops),
+           [{1: [4, 2, 3], 2: [5]}], [1, 2, 3], b(3, 4), ops),
         # Call: routine Reference at 0, arguments after (twins Reference 2/3)
         _u("call", ["Call", "Reference", "Reference", "Literal", "BinaryOperation",
                     "Assignment"],
-           [{1: [2, 3, 4]}, {6: [3, 1], 1: [2, 5], 5: [4]}], [1, 5, 6],
-           d - 1, ops),
+           [{1: [2, 3, 4]}, {6: [3, 1], 1: [2, 5], 5: [4]}], [1, 5, 6], b(2, 3), ops),
         # nested statements: ancestors of the edited parent as candidate children
         _u("nest", ["Schedule", "IfBlock", "Literal", "Schedule", "Assignment", "Schedule"],
-           [{1: [2], 2: [3, 4, 6], 4: [5]}], [1, 2, 4, 5, 6], d - 1 if quick else d, ops),
+           [{1: [2], 2: [3, 4, 6], 4: [5]}], [1, 2, 4, 5, 6], b(2, 3), ops),
         # expressions: BinaryOperation twins nested in each other
         _u("expr", ["Assignment", "BinaryOperation", "BinaryOperation", "Literal",
                     "Literal", "UnaryOperation"],
            [{1: [2, 3], 2: [4, 5]}, {1: [6, 2], 6: [3], 3: [4, 5]}], [1, 2, 3, 6],
-           d - 1, ops),
+           b(2, 2), ops),
         # OpenMP parallel directive: one clause kind per position
         _u("omp", ["OMPParallel", "Schedule", "OMPDefaultClause", "OMPPrivateClause",
                    "OMPFirstprivateClause", "Return"],
-           [{1: [2, 3, 4, 5], 2: [6]}], [1, 2], d, ops),
+           [{1: [2, 3, 4, 5], 2: [6]}], [1, 2], b(3, 4), ops),
         # WhileLoop / ArrayReference / Range
         _u("array", ["WhileLoop", "Schedule", "ArrayReference", "Range", "Literal",
                      "Reference"],
-           [{1: [3, 2], 3: [4], 4: [5, 6]}], [1, 2, 3, 4], d - 1 if quick else d, ops),
+           [{1: [3, 2], 3: [4], 4: [5, 6]}], [1, 2, 3, 4], b(2, 3), ops),
         # leaves as edited parent: everything must be refused
         _u("leaves", ["Literal", "Reference", "Return", "Schedule", "Assignment"],
-           [{4: [3, 5], 5: [1, 2]}], [1, 2, 3, 4], d - 1, ops),
+           [{4: [3, 5], 5: [1, 2]}], [1, 2, 3, 4], b(2, 4), ops),
     ]
     if not quick:
-        res += [
-            _u("loop8", ["Schedule", "Loop", "Schedule", "Literal", "Literal", "Reference",
-                         "Assignment", "Return"],
-               [{1: [2, 8], 2: [4, 5, 6, 3], 3: [7]}], [1, 2, 3, 7], 2, ALL_OPS),
-            _u("if7", ["Schedule", "IfBlock", "Schedule", "Schedule", "Literal", "Call",
-                       "Reference"],
-               [{1: [2], 2: [5, 3, 4], 3: [6], 6: [7]}], [1, 2, 3, 4, 6], 2, ALL_OPS),
-        ]
+        res += _big_universes()
     return res
+
+
+def _big_universes():
+    '''7- and 8-node universes (thorough tier and long histories).'''
+    return [
+        _u("loop8", ["Schedule", "Loop", "Schedule", "Literal", "Literal", "Reference",
+                     "Assignment", "Return"],
+           [{1: [2, 8], 2: [4, 5, 6, 3], 3: [7]}], [1, 2, 3, 7], 2, ALL_OPS),
+        _u("if7", ["Schedule", "IfBlock", "Schedule", "Schedule", "Literal", "Call",
+                   "Reference"],
+           [{1: [2], 2: [5, 3, 4], 3: [6], 6: [7]}], [1, 2, 3, 4, 6], 2, ALL_OPS),
+    ]
 
 
 def history_universes(tier, seed):
     '''Universes for the long pseudo-random histories (generator mode):
     (universe, number of histories, length).'''
     quick = tier == "quick"
-    num = 150 if quick else 1000
+    num = 150 if quick else 250
     length = 30 if quick else 40
     res = []
     for uni in universes("thorough")[:7] + universes("thorough")[-2:]:
